@@ -244,7 +244,7 @@ PROPS = {
     },
     "C03": {
         "rules": [r_cand.cand, r_cand.unkfall, r_cand.unkgroup, r_cand.unkspans, r_cand.charrange,
-                  r_reset.run_tokens, r_misc.optkeep_tokenizer, r_char.run],
+                  r_reset.run_tokens, r_misc.optkeep_tokenizer, r_char.run, r_map.run_user],
         "explanation": "CAND: at every processed position both lexicons are searched over the "
                        "same remaining text, every match is inserted and sets has_matched, and "
                        "gen_unk_words is called exactly once with that flag, the word start and "
@@ -494,3 +494,16 @@ for _p, (_t, _k) in _ADDED.items():
     PROPS[_p]["explanation"] += " " + _t
     if _k not in PROPS[_p]["technique"]:
         PROPS[_p]["technique"] += ", " + _k
+
+_ADDED2 = {
+    "C03": "MAPKEEP (user-lexicon installation): every successful return of reset_user_lexicon_from_reader has assigned data.user_lexicon and a None reader stores None, so a cleared user lexicon contributes no candidates.",
+    "C08": "MAPKEEP reset clauses: every Ok exit of reset_user_lexicon_from_reader assigns data.user_lexicon; with a None reader the only value assigned is None.",
+    "C05": "LANES: U31x8::encode writes lanes 0..7 in order in both build configurations.",
+    "C07": "ACCUM (portable and AVX2 builds): accumulate_cost pairs keys1[i] with keys2[i] through plain zips (no skip/rev/take), starts at zero and only adds lookup results; the AVX2 build sums lanes 0..7 once each. SCORERCHK (AVX2) also requires base = bases[key1] gathered under key1 < bases_len, zero for masked-out lanes and the 4-byte gather scale. LANES as for C05. KIND over compile's main: the readers opened from --bigram-right-in / --bigram-left-in reach the builder parameters of their own side.",
+    "C06": "KIND over map's main: the list read from *.lmap is the left mapping argument and *.rmap the right one.",
+    "C13": "KIND over map's main as for C06 (the files reorder writes are consumed on their own side).",
+    "C14": "KIND over dictgen's main: writers created with the .left / .right suffixes reach write_bigram_details' parameters of their own side.",
+    "C16": "KIND over dictgen's and compile's main: the .left/.right files are written from, and --bigram-left-in/--bigram-right-in read into, the parameters of their own side.",
+}
+for _p, _t in _ADDED2.items():
+    PROPS[_p]["explanation"] += " " + _t
